@@ -1,6 +1,7 @@
 import JetVerif.Props.C12
 import JetVerif.Props.C12S
 import JetVerif.Props.C12L
+import JetVerif.Props.C12T
 open JetVerif.Props.C12
 #print axioms failure_keeps_rendered_prefix
 #print axioms success_extends_output
@@ -23,3 +24,9 @@ open JetVerif.Props.C12
 #print axioms JetVerif.Props.C12L.parsed_tree_lines_lie_in_the_source_any_items
 #print axioms JetVerif.Props.C12L.parsed_expression_lines_lie_in_the_source
 #print axioms JetVerif.Props.C12L.parseSource_tree_lines_lie_in_the_source
+#print axioms JetVerif.Props.C12T.execute_only_repanics_callee_panics
+#print axioms JetVerif.Props.C12T.only_callee_panics
+#print axioms JetVerif.Props.C12T.initRT_rwf
+#print axioms JetVerif.Props.C12T.empty_pipeline_panics
+#print axioms JetVerif.Props.C12T.let_of_field_panics
+#print axioms JetVerif.Props.C12T.yield_without_params_panics
